@@ -512,3 +512,22 @@ func kfSyn() []*SynGrammar {
 		synG([]string{"S"}, []string{"\"error\"", "a"}, P(0, T(0), T(1)), P(0, T(1))),
 	}
 }
+
+// curatedActionSyn: grammars whose action expressions stress the $-vocabulary (C03): bodies
+// with more than ten symbols ($10, $T11), empty alternatives with and without action,
+// pass-through alternatives.
+func curatedActionSyn() []*SynGrammar {
+	long := synG([]string{"S", "A"}, []string{"a", "b", "c", "\"+\""},
+		SynProd{Head: 0, Body: []Sym{T(0), T(1), T(2), N(1), T(0), T(1), T(2), N(1), T(0), T(1), T(2), T(3), N(1)}, Action: "log"},
+		SynProd{Head: 0, Body: []Sym{T(3)}, Action: "log"},
+		SynProd{Head: 1, Body: nil, Action: "log"},
+		SynProd{Head: 1, Body: []Sym{T(1), T(1)}},
+		SynProd{Head: 1, Body: []Sym{T(2), N(1)}, Action: "log"})
+	mixed := synG([]string{"L", "E", "O"}, []string{"x", "\",\"", "y"},
+		SynProd{Head: 0, Body: []Sym{N(1)}},
+		SynProd{Head: 0, Body: []Sym{N(0), T(1), N(1)}, Action: "log"},
+		SynProd{Head: 1, Body: []Sym{T(0), N(2)}, Action: "log"},
+		SynProd{Head: 2, Body: nil},
+		SynProd{Head: 2, Body: []Sym{T(2)}})
+	return []*SynGrammar{long, mixed}
+}
